@@ -40,21 +40,23 @@ type World struct {
 	pathMemo map[*ssa.Function][]*Path
 	pathErr  map[*ssa.Function]error
 
-	NoInline   bool
-	inlBudget  int
-	boundary   map[*ssa.Function]string
-	inlMemo    map[*ssa.Function]bool
-	inlIfs     map[*ssa.Function]int
-	addrTaken  map[*ssa.Function]bool
-	pfacts     map[*ssa.Function]map[string]*T
-	callers    map[*ssa.Function][]*ssa.Function
-	recursive  map[*ssa.Function]bool
-	byKey      map[string]*ssa.Function
-	globalInit map[string]*T
-	globalRO   map[string]bool
-	initMaps   map[string][]mapEntry // maps the package initialiser built: their entries
-	mapGlobal  map[string][]string   // ... and the package variables that hold them
-	mapRO      map[string]bool
+	NoInline     bool
+	inlBudget    int
+	boundary     map[*ssa.Function]string
+	inlMemo      map[*ssa.Function]bool
+	inlIfs       map[*ssa.Function]int
+	addrTaken    map[*ssa.Function]bool
+	pfacts       map[*ssa.Function]map[string]*T
+	callers      map[*ssa.Function][]*ssa.Function
+	recursive    map[*ssa.Function]bool
+	byKey        map[string]*ssa.Function
+	globalInit   map[string]*T
+	globalRO     map[string]bool
+	globalInitLV map[string]*T
+	initMaps     map[string][]mapEntry // maps the package initialiser built: their entries
+	mapGlobal    map[string][]string   // ... and the package variables that hold them
+	mapRO        map[string]bool
+	builtMaps    int
 }
 
 func LoadWorld(root string) (*World, error) {
